@@ -22,7 +22,9 @@ Clauses(i) ==
               LET x == e.caps[j]
                   m == UnpackMove(x.mv)
                   vs == SeeVerdicts(p, m)
-              IN  /\ ViolAt(x.see # "panic" /\ x.msee # "panic", "C20", i, "panic", [fen |-> e.fen, mv |-> UciOf(m)])
+              IN  /\ ViolAt(IOEnv.SEE_FULL # "1" \/ SeeValuesFull(p, m) = SeeValues(p, m), "ORACLE", i, "picks-reduction-changes-the-value-set",
+                            [fen |-> e.fen, mv |-> UciOf(m), full |-> SeeValuesFull(p, m), reduced |-> SeeValues(p, m)])
+                  /\ ViolAt(x.see # "panic" /\ x.msee # "panic", "C20", i, "panic", [fen |-> e.fen, mv |-> UciOf(m)])
                   /\ ViolAt(x.see = x.msee, "C20", i, "colour-asymmetry", [fen |-> e.fen, mv |-> UciOf(m)])
                   /\ ViolAt(Undefended(p, m) => x.see = "t", "C20", i, "undefended", [fen |-> e.fen, mv |-> UciOf(m)])
                   /\ ViolAt(CapturedAtLeastCapturer(p, m) => x.see = "t", "C20", i, "captured>=capturer",
